@@ -34,6 +34,7 @@ const (
 	scParseFail
 	scPairRel
 	scOption // subject is none of the declared constants of its type
+	scEmpty  // the list subject has no elements
 )
 
 type scenario struct {
@@ -76,6 +77,8 @@ func (s scenario) String() string {
 		return fmt.Sprintf("param#%d %v param#%d", s.Param, s.Rel, s.Param2)
 	case scOption:
 		return sub + " is not a declared option"
+	case scEmpty:
+		return "len(" + sub + ") == 0"
 	}
 	return "?"
 }
@@ -250,6 +253,12 @@ func (c *simCtx) regionOf(v ssa.Value) (float64, float64, bool) {
 		}
 	}
 	v = resolve(v)
+	if c.sc.Kind == scEmpty {
+		if lc, ok := v.(*ssa.Call); ok && builtinName(lc) == "len" && c.isSubject(lc.Call.Args[0]) {
+			return 0, 0, true
+		}
+		return 0, 0, false
+	}
 	if c.isSubject(v) {
 		return c.sc.Lo, c.sc.Hi, true
 	}
@@ -663,7 +672,7 @@ func (c *simCtx) oracleCmp(b *ssa.BinOp) (bool, bool) {
 		return false, false
 	}
 	switch c.sc.Kind {
-	case scRegion:
+	case scRegion, scEmpty:
 		if k, ok := c.constUnder(b.Y); ok {
 			if lo, hi, ok := c.regionOf(b.X); ok {
 				return decideCmp(b.Op, lo, hi, k)
@@ -1167,6 +1176,14 @@ func (c *simCtx) explore(start *ssa.BasicBlock, stop map[*ssa.BasicBlock]bool) m
 			}
 		}
 	}
+	emptyLoops := map[*ssa.BasicBlock]*ssa.BasicBlock{} // header -> body (edge blocked)
+	if c.sc.Kind == scEmpty {
+		for _, sr := range findSliceRanges(c.f) {
+			if c.isSubject(sr.X) {
+				emptyLoops[sr.Header] = sr.Body
+			}
+		}
+	}
 	if c.sc.NonEmptyFn != nil {
 		for _, sr := range findSliceRanges(c.f) {
 			if ex, ok := resolve(sr.X).(*ssa.Extract); ok && ex.Index == 0 {
@@ -1211,6 +1228,9 @@ func (c *simCtx) explore(start *ssa.BasicBlock, stop map[*ssa.BasicBlock]bool) m
 			}
 			for _, s := range b.Succs {
 				if d, ok := blocked[b]; ok && s == d {
+					continue
+				}
+				if d, ok := emptyLoops[b]; ok && s == d {
 					continue
 				}
 				walk(s, b)
@@ -1281,6 +1301,29 @@ func (c *simCtx) verdict(reach map[*ssa.BasicBlock]bool, loop *sliceRange) (bool
 				if ld, ok := loadOf(ptr); ok {
 					if ia, ok := ld.(*ssa.IndexAddr); ok && resolve(ia.X) == ssa.Value(c.f.Params[c.sc.Param]) {
 						bad = "an element of the list is dereferenced at " + w.Pos(in.Pos()) + " before the nil-element check (panic)"
+					}
+				}
+			}
+		})
+		if bad != "" {
+			return false, bad
+		}
+	}
+	if c.sc.Kind == scEmpty {
+		bad := ""
+		instrs(c.f, func(in ssa.Instruction) {
+			if !reach[in.Block()] || bad != "" {
+				return
+			}
+			switch x := in.(type) {
+			case *ssa.IndexAddr:
+				if c.isSubject(x.X) {
+					bad = "element access " + shortInstr(x) + " is reachable for an empty list (panic)"
+				}
+			case *ssa.Slice:
+				if c.isSubject(x.X) && (x.Low != nil || x.High != nil) {
+					if k, ok := constInt(x.Low); x.Low != nil && (!ok || k > 0) {
+						bad = "re-slicing " + shortInstr(x) + " is reachable for an empty list (panic)"
 					}
 				}
 			}
